@@ -168,6 +168,15 @@ A(t, op, x, y, z, k) ==
          LET w == IF op = "VarB" THEN x ELSE y IN
          IF Len(x) # Len(w) THEN Rs(DIM)
          ELSE Ok((4096 \div (n * n * n)) * Sum([i \in Idx(x) |-> (n * x[i] - Sum(x)) * (n * w[i] - Sum(w))]))
+    [] op = "MeanW"   -> IF mism THEN Rs(DIM) ELSE Ok(<<(16 * Dot(x, y)) \div Sum(y), 0>>)
+    [] op \in {"CovW", "VarW"} ->
+         LET yy == IF op = "VarW" THEN x ELSE y
+             a  == IF op = "VarW" THEN y ELSE z
+             W  == Sum(a)  N == CovNum(x, yy, a)
+             val == IF k[1] = 0 THEN (4096 \div (W * W * W)) * N
+                    ELSE IF (4096 * N) % (W * WQ(a)) = 0 THEN (4096 * N) \div (W * WQ(a)) ELSE -2000000000
+         IN IF Len(x) # Len(yy) \/ Len(x) # Len(a) THEN Rs(DIM)
+            ELSE IF op = "CovW" THEN Ok(<<val, 0>>) ELSE Ok(<<val, 0, 0, 1, 0>>)
     [] op = "Fdr"     -> Ok(AlgoFdr(x))
     [] op \in {"CovO", "CorO", "CosO", "NormWO", "MiO"} -> IF mism THEN Rs(DIM) ELSE Ok(0)
 
@@ -187,6 +196,15 @@ Pre(op, x, y, z, k) ==
     [] op = "VarB"               -> Len(x) \in {1, 2, 4, 8, 16}
     [] op = "CovB"               -> Len(x) # Len(y) \/ Len(x) \in {1, 2, 4, 8, 16}
     [] op = "Fdr"                -> Len(x) <= 10 /\ \A i \in Idx(x) : x[i] >= 0
+    [] op \in {"MeanW", "VarW", "CovW"} ->
+         LET a == IF op = "CovW" THEN z ELSE y
+             u == IF op = "MeanW" THEN 0 ELSE k[1]
+             nz == IF op = "MeanW" THEN k[1] ELSE k[2]
+             pre == IF op = "MeanW" THEN k[2] ELSE k[3] IN
+         /\ \A i \in Idx(a) : a[i] >= 0
+         /\ Sum(a) \in {1, 2, 4, 8}
+         /\ u = 1 => WQ(a) > 0
+         /\ nz = 1 \/ pre = 1            \* weights not summing to one are only meaningful with normalisation
     [] OTHER                     -> TRUE
 
 \* the transcription of op on these arguments is accepted by the judge
